@@ -35,6 +35,15 @@ pub struct Per(pub u32);
 #[derive(Component, Serialize, Deserialize, Clone, PartialEq, Debug, MapEntities)]
 pub struct Link(#[entities] pub Entity);
 
+/// A replicated relationship (hooks run on the client when it is written): the source is attached
+/// to the target; not linked (despawning the target only removes the component from the sources).
+#[derive(Component, Serialize, Deserialize, Clone, PartialEq, Debug)]
+#[relationship(relationship_target = Attachments)]
+pub struct AttachedTo(pub Entity);
+#[derive(Component, Clone, PartialEq, Debug, Default)]
+#[relationship_target(relationship = AttachedTo)]
+pub struct Attachments(Vec<Entity>);
+
 /// Only registered by the "wrong protocol" client build.
 #[derive(Component, Serialize, Deserialize, Clone, PartialEq, Debug)]
 pub struct Extra(pub u32);
@@ -47,7 +56,7 @@ pub struct Follows(pub Entity);
 #[relationship_target(relationship = Follows)]
 pub struct FollowedBy(Vec<Entity>);
 
-pub const NK: usize = 8;
+pub const NK: usize = 9;
 pub const K_VA: usize = 0;
 pub const K_VB: usize = 1;
 pub const K_SEC: usize = 2;
@@ -56,7 +65,8 @@ pub const K_IMM: usize = 4;
 pub const K_ONCE: usize = 5;
 pub const K_PER: usize = 6;
 pub const K_LINK: usize = 7;
-pub const KIND_NAMES: [&str; NK] = ["Va", "Vb", "Sec", "Blob", "Imm", "Once", "Per", "Link"];
+pub const K_ATT: usize = 8;
+pub const KIND_NAMES: [&str; NK] = ["Va", "Vb", "Sec", "Blob", "Imm", "Once", "Per", "Link", "Att"];
 /// Period of `Per`.
 pub const PERIOD: u32 = 2;
 
@@ -108,6 +118,7 @@ pub fn get_kind(e: &EntityRef, k: usize) -> Option<Val> {
         K_ONCE => e.get::<Once>().map(|c| Val::U(c.0)),
         K_PER => e.get::<Per>().map(|c| Val::U(c.0)),
         K_LINK => e.get::<Link>().map(|c| Val::E(c.0)),
+        K_ATT => e.get::<AttachedTo>().map(|c| Val::E(c.0)),
         _ => unreachable!(),
     }
 }
@@ -122,6 +133,7 @@ pub fn has_kind(e: &EntityRef, k: usize) -> bool {
         K_ONCE => e.contains::<Once>(),
         K_PER => e.contains::<Per>(),
         K_LINK => e.contains::<Link>(),
+        K_ATT => e.contains::<AttachedTo>(),
         _ => unreachable!(),
     }
 }
@@ -154,6 +166,7 @@ pub fn insert_kind(e: &mut EntityWorldMut, k: usize, v: Val) {
         (K_ONCE, Val::U(u)) => e.insert(Once(u)),
         (K_PER, Val::U(u)) => e.insert(Per(u)),
         (K_LINK, Val::E(t)) => e.insert(Link(t)),
+        (K_ATT, Val::E(t)) => e.insert(AttachedTo(t)),
         (k, v) => panic!("harness bug: kind {k} with value {v:?}"),
     };
 }
@@ -177,6 +190,14 @@ pub fn mutate_kind(e: &mut EntityWorldMut, k: usize, v: Val) -> bool {
         (K_ONCE, Val::U(u)) => e.get_mut::<Once>().map(|mut c| c.0 = u).is_some(),
         (K_PER, Val::U(u)) => e.get_mut::<Per>().map(|mut c| c.0 = u).is_some(),
         (K_LINK, Val::E(t)) => e.get_mut::<Link>().map(|mut c| c.0 = t).is_some(),
+        (K_ATT, Val::E(t)) => {
+            if e.contains::<AttachedTo>() {
+                e.insert(AttachedTo(t));
+                true
+            } else {
+                false
+            }
+        }
         (k, v) => panic!("harness bug: kind {k} with value {v:?}"),
     }
 }
@@ -191,6 +212,7 @@ pub fn remove_kind(e: &mut EntityWorldMut, k: usize) {
         K_ONCE => e.remove::<Once>(),
         K_PER => e.remove::<Per>(),
         K_LINK => e.remove::<Link>(),
+        K_ATT => e.remove::<AttachedTo>(),
         _ => unreachable!(),
     };
 }
@@ -388,7 +410,8 @@ pub fn mk_app(cfg: &Cfg, role: Role) -> App {
         .replicate::<Imm>()
         .replicate_once::<Once>()
         .replicate_periodic::<Per>(PERIOD)
-        .replicate::<Link>();
+        .replicate::<Link>()
+        .replicate::<AttachedTo>();
 
     if cfg.events {
         app.add_server_event::<SEv>(Channel::Ordered)
